@@ -1089,13 +1089,17 @@ class PyCdlib:
                     else:
                         # For real files, create an inode that points to the
                         # location on disk.
-                        if extent_to_use in extent_to_inode:
+                        # Zero-length files and symlinks are never linked
+                        # to each other (see above), so they always get an
+                        # Inode of their own.
+                        if len_to_use > 0 and extent_to_use in extent_to_inode:
                             ino = extent_to_inode[extent_to_use]
                         else:
                             ino = inode.Inode()
                             ino.parse(extent_to_use, len_to_use, cdfp,
                                       self.logical_block_size)
-                            extent_to_inode[extent_to_use] = ino
+                            if len_to_use > 0:
+                                extent_to_inode[extent_to_use] = ino
                             self.inodes.append(ino)
 
                         ino.linked_records.append((new_record, vd == self.pvd))
